@@ -158,6 +158,7 @@ type Env struct {
 	pkg   *types.Package
 	bound map[string]Val
 	depth int
+	loopPre *State // state at entry of the loop whose invariant is being evaluated
 }
 
 func (e *Env) with(name string, v Val) *Env {
@@ -855,6 +856,31 @@ func (e *Env) evalCall(n *ast.CallExpr) Val {
 			args = append(args, App(fmt.Sprintf("mkiface_%d", tag), SInt, v.T()))
 		}
 		return strVal(App(fmt.Sprintf("sprintf_%d", len(n.Args)-1), SStr, args...))
+	case "ifaceStrs":
+		// ifaceStrs(x): the []string boxed in interface value x
+		st := types.NewSlice(types.Typ[types.String])
+		tag := e.x.prog.typeTag(st)
+		out := Val{Typ: st}
+		for i := 0; i < 4; i++ {
+			out.C = append(out.C, App(fmt.Sprintf("ipay_%d_%d", tag, i), SInt, arg(0).T()))
+		}
+		return out
+	case "ifaceAnys":
+		st := types.NewSlice(types.NewInterfaceType(nil, nil))
+		tag := e.x.prog.typeTag(st)
+		out := Val{Typ: st}
+		for i := 0; i < 4; i++ {
+			out.C = append(out.C, App(fmt.Sprintf("ipay_%d_%d", tag, i), SInt, arg(0).T()))
+		}
+		return out
+	case "pre":
+		// pre(e): e evaluated in the state in which the enclosing loop was entered (before its first iteration)
+		if e.loopPre == nil {
+			e.fail("pre() is only available in loop invariants")
+		}
+		n2 := *e
+		n2.st = e.loopPre
+		return n2.eval(n.Args[0])
 	case "ifaceStr":
 		// ifaceStr(x): the string boxed in interface value x
 		tag := e.x.prog.typeTag(types.Typ[types.String])
